@@ -271,9 +271,10 @@ def parseWImg? : List String → WImg → Option WImg
       let mtext ← parseText? mtext
       let dtext ← parseText? dtext
       let m ← kvs.mapM parsePair?
-      parseWImg? ts { w with darrays := w.darrays ++ [{ intent := it, datatype := dt, indOrd := ord, encoding := enc,
-        endian := en, dims := dims, extFname := fname, extOffset := off, dmeta := m,
-        coordsys := { dataspace := ds, xformspace := xs, matrixText := mtext }, dataText := dtext }] }
+      let cs : WCoord := { dataspace := ds, xformspace := xs, matrixText := mtext }
+      let da : WDArr := { intent := it, datatype := dt, indOrd := ord, encoding := enc, «endian» := en, dims := dims,
+                          extFname := fname, extOffset := off, dmeta := m, coordsys := cs, dataText := dtext }
+      parseWImg? ts { w with darrays := w.darrays ++ [da] }
     | _ => none
 
 def handle : List String → String
